@@ -86,7 +86,33 @@ def ubound(prog, body, t, facts=(), depth=0):
             return LEN_MAX
     if tag == "phi" and iter_counter_base(prog, body, t) is not None:
         return LEN_MAX      # counts completed iterations of a loop over a slice / str: <= its length
+    if tag == "param" and depth < 6:
+        return _param_ubound(prog, body, t, depth)
     return None
+
+
+def _param_ubound(prog, body, param, depth):
+    """Upper bound of a parameter of a crate-private function: the largest bound over all its call sites."""
+    vis = str(body.vis or "")
+    if not vis.startswith("Restricted") or body.kind not in ("fn", "assoc_fn"):
+        return None
+    idx = param[1] - 1
+    best = None
+    sites = 0
+    for fb in prog.bodies():
+        for b, t, cal in fb.calls():
+            if cal.local_key != body.key:
+                continue
+            sites += 1
+            if idx >= len(t["args"]):
+                return None
+            fs = sym_of(fb)
+            av = prog.simp(fs.call_args(b)[idx], fb)
+            u = ubound(prog, fb, av, facts_at(prog, fb, b), depth + 1)
+            if u is None:
+                return None
+            best = u if best is None else max(best, u)
+    return best if sites else None
 
 
 _COUNTER_MEMO = {}
@@ -1278,9 +1304,18 @@ def schema_misc_call(prog, o):
     body = o.body
     k = o.kind
     facts = None
-    if k in ("call:Vec::with_capacity", "call:String::with_capacity", "call:str::repeat"):
-        return ("A-MEM", "allocation-size failure only (excluded by C04's memory clause); the size operand's "
-                "own arithmetic is a separate obligation")
+    if k == "call:str::repeat":
+        return ("A-MEM", "the result itself has that many copies: failure only when the result could not fit in memory "
+                "(C04's memory clause); the count's own arithmetic is a separate obligation")
+    if k in ("call:Vec::with_capacity", "call:String::with_capacity"):
+        # a capacity is only a hint: it must be bounded by the size of data that already exists (lengths and small
+        # multiples of them), otherwise an ordinary call (e.g. width = usize::MAX) fails with "capacity overflow"
+        size = o.terms[0] if o.terms else None
+        u = ubound(prog, body, size, facts_at(prog, body, o.block)) if size is not None else None
+        if u is not None and u <= 4 * LEN_MAX:
+            return ("A-MEM", "capacity bounded by the length of existing data (<= %s): failure only when the result could "
+                    "not fit in memory" % _fmt_bound(u))
+        return None
     if k == "call:Vec::insert" and len(o.terms) >= 2 and o.terms[1] == ("int", 0):
         return ("INSERT-FRONT", "index 0 <= len for every Vec")
     if k == "call:str::split_at":
